@@ -112,7 +112,7 @@ def gen_case(seed, tier='quick'):
     ops.append({'op': 'check'})
     # interleaved tail
     n_sets = rng.choice([0, 1, 1, 2, 3, 5])
-    closure_inputs = [a for a in closure_of_focus(world, focus)
+    closure_inputs = [a for a in sorted(closure_of_focus(world, focus))
                       if world['level'].get(a, 0) == 0 and a in world['cells']]
     tail = []
     for sid in range(n_sets):
